@@ -5,7 +5,7 @@ wt,name,prop,strn,breaks,needs,caught=sys.argv[1:8]
 d=f'/verif/seeded/{name}'
 shutil.rmtree(d,ignore_errors=True); os.makedirs(d)
 shutil.copy(f'{wt}/seed.patch',f'{d}/patch.diff')
-shutil.copytree(f'{wt}/seed_demo',f'{d}/demo',ignore=shutil.ignore_patterns('routes','*.gleece.go','dist','out','*.exe'))
+shutil.copytree(f'{wt}/seed_demo',f'{d}/demo',ignore=shutil.ignore_patterns('*.bin','routes','*.gleece.go','dist','out','*.exe'))
 base=subprocess.check_output(['git','-C','/repo','rev-parse','--short','HEAD'],text=True).strip()
 json.dump({"property":prop,"round":int(os.environ.get("SEED_ROUND","2")),"breaks":breaks,"needs_to_manifest":needs,"caught_by":caught,"check_strengthened_after_miss":strn=='1',"base_commit":base,
  "confirmed":{"go build ./...":"ok","existing suite with the change":"37 ok, only the 2 baseline failures","demonstration":"fails with the change, passes without it (tools/seedverify.sh)",
